@@ -18,6 +18,9 @@ SW = {
     "no-radial-screen": "1 1 0 1 1 0",
     "no-pair-screen": "1 1 1 0 1 0",
     "no-prescreen": "1 1 1 1 0 0",
+    "no-radial-screen+no-pair-screen": "1 1 0 0 1 0",
+    "no-radial-screen+no-prescreen": "1 1 0 1 0 0",
+    "no-pair-screen+no-prescreen": "1 1 1 0 0 0",
     "no-tail-cut-no-screens": "0 1 0 0 0 0",
     "finest-level": "1 1 1 1 1 1",          # adaptive quadratures never accept a level early (radial tolerance 0)
     "no-tail-cut-finest-level": "0 1 1 1 1 1",
@@ -133,8 +136,8 @@ def pair_driver(b, variant_extra=()):
     return build.compile_driver(b, "corr_pair.cpp", extra=PAIR_LINK + list(variant_extra))
 
 
-def run_real(drv, cases, env=None):
-    res = subprocess.run([drv], input="\n".join(fmt_case(c) for c in cases) + "\n", stdout=subprocess.PIPE, stderr=subprocess.PIPE, text=True, env=env)
+def run_real(drv, cases, env=None, noscreen=False):
+    res = subprocess.run([drv], input=("noscreen 1\n" if noscreen else "") + "\n".join(fmt_case(c) for c in cases) + "\n", stdout=subprocess.PIPE, stderr=subprocess.PIPE, text=True, env=env)
     if res.returncode != 0:
         raise RuntimeError("corr_pair crashed (%d): %s" % (res.returncode, res.stderr[-800:]))
     runs, cur = [], []
@@ -158,7 +161,7 @@ def run_model(runs, switches=("code",), timeout=7200):
         for l in r.req:
             if l.startswith("sw "):
                 for s in switches:
-                    lines.append("sw " + SW[s])
+                    lines.append("sw " + (l[3:] if s == "as-run" else SW[s]))
             else:
                 lines.append(l)
     out = [l for l in core.run_driver(lines, timeout=timeout) if l.startswith("V ") or l.startswith("bad")]
